@@ -8,9 +8,10 @@ EXTENDS Props, Json, IOUtils
 Trace == ndJsonDeserialize(IOEnv.TRACE_FILE)
 
 VARIABLES l,        \* next line to judge
-          aux,      \* spec-kept observation state (gov proposals in flight)
-          bad       \* set of findings <<line, layer, name>>
-vars == <<l, aux, bad>>
+          aux,      \* spec-kept observation state (gov proposals in flight, acceptance histories)
+          bad,      \* set of findings <<line, layer, property, detail>>
+          snap      \* [line, aux] of the last Commit (or InitChain): what a restart must resume from
+vars == <<l, aux, bad, snap>>
 
 InitAux == [props |-> <<>>, nextProp |-> 1, ever |-> [wrk |-> <<>>, bcn |-> <<>>], sh |-> <<>>]
 
@@ -129,17 +130,40 @@ IsReset(ev) == ev.a = "InitChain"
 
 Tag(i, layer, props, detail) == { <<i, layer, p, detail>> : p \in props }
 
+\* the one known disagreement (SDK baseapp, see DESIGN): a tx rejected by its stateless checks, i.e. before the ante
+\* handler installs the tx gas meter (gas wanted 0), reports the block context's gas counter as gas used; on a replica
+\* restarted since the previous block that counter includes once-per-process work of the SDK's begin-blockers
+OnlyGasUsedOfStatelesslyRejectedTx(res) ==
+  /\ "missing" \notin DOMAIN res.refA /\ "missing" \notin DOMAIN res.refC
+  /\ res.refA = res.refC
+  /\ res.raw.code = res.refA.code /\ res.raw.data = res.refA.data /\ res.raw.gasW = res.refA.gasW
+  /\ res.raw.gasW = 0 /\ res.raw.code # 0
+\* C01: replica agreement, from the reference results the harness recorded next to replica B's own
+ReplicaMonitors(ev) ==
+     (IF ev.a = "Commit" /\ "refHashA" \in DOMAIN ev.res /\ (ev.res.hash # ev.res.refHashA \/ ev.res.hash # ev.res.refHashC)
+      THEN {<<"C01", "AppHashDiffersBetweenReplicas">>} ELSE {})
+  \cup (IF ev.a = "DeliverTx" /\ "refA" \in DOMAIN ev.res /\ (ev.res.raw # ev.res.refA \/ ev.res.raw # ev.res.refC)
+        THEN (IF OnlyGasUsedOfStatelesslyRejectedTx(ev.res)
+              THEN {<<"C01", "GasUsedOfStatelesslyRejectedTxDiffersOnRestartedReplica">>}
+              ELSE {<<"C01", "TxResultDiffersBetweenReplicas">>}) ELSE {})
+  \cup (IF ev.a = "Restart" /\ "refHashA" \in DOMAIN ev.res /\ ev.res.hash # ev.res.refHashA
+        THEN {<<"C01", "RestartHashDiffers">>} ELSE {})
+  \cup (IF ev.a = "Restart" /\ ev.res.height # Trace[snap.line].post.height
+        THEN {<<"C01", "RestartHeightNotLastCommitted">>} ELSE {})
+
 Judge(i) ==
   LET ev  == Trace[i]
       pre == Trace[i - 1].post @@ [aux |-> aux]
-      exp == Step(pre, ev.args)
+      exp == IF ev.a = "Restart" THEN Ok(Trace[snap.line].post @@ [aux |-> snap.aux]) ELSE Step(pre, ev.args)
       evm == ev.args @@ [a |-> ev.a]
-  IN UNION { Tag(i, "L2", PathProps(d, ev), d) : d \in StateDiff(exp.st, ev.post) }
+  IN UNION { Tag(i, "L2", (IF ev.a = "Restart" THEN {"C01"} ELSE PathProps(d, ev)), d) : d \in StateDiff(exp.st, ev.post) }
+     \cup { <<i, "L1", m[1], m[2]>> : m \in ReplicaMonitors(ev) }
      \cup (IF exp.ok # ev.res.ok THEN {<<i, "L2", "note", <<"res.ok", exp.ok>> >>} ELSE {})
      \cup (IF exp.ok /\ ev.res.ok /\ ev.a = "DeliverTx"
            THEN UNION { Tag(i, "L2", PathProps(d, ev), d) : d \in OutDiff(exp.out, ev.res.outs) } ELSE {})
      \cup { <<i, "L1", m[1], m[2]>> : m \in StateMonitors(ev.post) }
-     \cup { <<i, "L1", m[1], m[2]>> : m \in StepMonitors(Trace[i - 1].post, ev.post, evm) }
+     \cup (IF ev.a = "Restart" THEN {}    \* not a transition of the chain: memory is replaced by the durable state
+           ELSE { <<i, "L1", m[1], m[2]>> : m \in StepMonitors(Trace[i - 1].post, ev.post, evm) })
      \cup { <<i, "L1", m[1], m[2]>> : m \in HistMonitors(ev.post, exp.st.aux) }
      \cup (IF ~FailedTxKeepsState(Trace[i - 1].post, ev.post, evm, ev.res.ok) THEN {<<i, "L1", "C14", "FailedTxKeepsState">>} ELSE {})
      \cup (IF "mints" \in DOMAIN ev.res /\ \E d \in Denoms : ev.res.mints[d] - ev.res.burns[d] # ev.post.supply[d] - Trace[i - 1].post.supply[d]
@@ -164,7 +188,7 @@ Explain(i) ==
                 PrintT(<<"EXPLAIN", ToJson([line |-> i, path |-> d, expected |-> GetPath(exp.st, d), observed |-> GetPath(ev.post, d)])>>)
   ELSE TRUE
 
-TraceInit == l = 1 /\ aux = InitAux /\ bad = {}
+TraceInit == l = 1 /\ aux = InitAux /\ bad = {} /\ snap = [line |-> 1, aux |-> InitAux]
 
 TraceNext ==
   /\ l <= Len(Trace)
@@ -172,8 +196,11 @@ TraceNext ==
   /\ Explain(l)
   /\ IF IsReset(Trace[l])
      THEN /\ aux' = InitAux
+          /\ snap' = [line |-> l, aux |-> InitAux]
           /\ bad' = bad \cup { <<l, "L1", m[1], m[2]>> : m \in StateMonitors(Trace[l].post) }
-     ELSE /\ aux' = Step(Trace[l - 1].post @@ [aux |-> aux], Trace[l].args).st.aux
+     ELSE /\ aux' = IF Trace[l].a = "Restart" THEN snap.aux
+                    ELSE Step(Trace[l - 1].post @@ [aux |-> aux], Trace[l].args).st.aux
+          /\ snap' = IF Trace[l].a = "Commit" THEN [line |-> l, aux |-> aux'] ELSE snap
           /\ bad' = bad \cup Judge(l)
 
 TraceSpec == TraceInit /\ [][TraceNext]_vars
